@@ -56,6 +56,9 @@ func spec_pbWF(b *precommitBuffer) bool {
 //@   ensures wf: spec_pbWF(b)
 //@   ensures bad: (n <= 0 || n > old(spec_pbCount(b))) ==> r0 != nil && spec_pbCount(b) == old(spec_pbCount(b)) && b.rpos == old(b.rpos)
 //@   ensures ok: 0 < n && n <= old(spec_pbCount(b)) ==> r0 == nil && spec_pbCount(b) == old(spec_pbCount(b)) - n && b.wpos == old(b.wpos)
+//@   ensures c07_buf: b.buf == old(b.buf)
+//@   ensures c07_bad: (n <= 0 || n > old(spec_pbCount(b))) ==> b.wpos == old(b.wpos) && b.full == old(b.full)
+//@   ensures c07_rpos: 0 < n && n <= old(spec_pbCount(b)) ==> b.rpos == (old(b.rpos) + n) % len(b.buf)
 //@   assigns b
 
 //@ func (*precommitBuffer).recedeWriter
@@ -64,4 +67,6 @@ func spec_pbWF(b *precommitBuffer) bool {
 //@   ensures wf: spec_pbWF(b)
 //@   ensures bad: (n <= 0 || n > old(spec_pbCount(b))) ==> r0 != nil && spec_pbCount(b) == old(spec_pbCount(b)) && b.wpos == old(b.wpos)
 //@   ensures ok: 0 < n && n <= old(spec_pbCount(b)) ==> r0 == nil && spec_pbCount(b) == old(spec_pbCount(b)) - n && b.rpos == old(b.rpos)
+//@   ensures c07_buf: b.buf == old(b.buf)
+//@   ensures c07_bad: (n <= 0 || n > old(spec_pbCount(b))) ==> b.rpos == old(b.rpos) && b.full == old(b.full)
 //@   assigns b
